@@ -27,8 +27,11 @@ package utils
 //@   nomod
 //@ func FileExists
 //@   nomod
+// cwd(): the directory taskctl was started in (os.Getwd, assumed not to change while a configuration is loaded)
+//@ fun cwd() string
 //@ func MustGetwd
 //@   nomod
+//@   ensures result == cwd()
 //@ func MustGetUserHomeDir
 //@   nomod
 //@ func MapKeys
